@@ -3,6 +3,7 @@
 #ifndef VH_LIBC_H
 #define VH_LIBC_H
 #include <stddef.h>
+#include <string.h>
 static void *vh_memmove(void *d, const void *s, size_t n) {
 	char *dd = (char *) d; const char *ss = (const char *) s;
 	if (dd == ss || n == 0) return d;
